@@ -633,6 +633,8 @@ func RunTCP(sc *TScript) (*TExec, error) {
 			x.opTCPClose(st)
 		case "Sleep":
 			x.opTSleep(st)
+		case "HostileStream":
+			x.opHostileStream(st)
 		default:
 			return x, fmt.Errorf("unknown tcp op %q", st.Op)
 		}
